@@ -16,9 +16,10 @@ PROPS = {
     },
     "C01": {
         "families": [{"name": "e2e"}],
+        "thorough_families": [{"name": "toy"}],
         "assumptions": [
             "theorems are about the Gallina model (Model/Lmots, Lms, Derive, Hss, Codec), for every hash function H with |H(x)| = n",
-            "model == code by differential execution of keygen / sign / verify with the Gallina SHA-256 (SHAKE variants: implementation-only oracle)",
+            "model == code by differential execution of keygen / sign / verify with the Gallina SHA-256 (SHAKE variants: implementation-only oracle; trees of height 10 and 15 and 2^20-signature keys: with the toy hasher harness/src/toy.rs = Exec/Toy.v, thorough tier here, quick tier under C08)",
         ],
     },
     "C04": {
@@ -70,13 +71,14 @@ PROPS = {
     "C07": {
         "families": [{"name": "e2e"}],
         "rfc": True,
+        "thorough_families": [{"name": "toy"}],
         "byte_exact": ["sign", "try_sign", "keygen"],
         "assumptions": [
             "right-hand side: Spec/Rfc8554.v + Spec/HssSpec.v (independent transcription of RFC 8554, validated by the Appendix F vectors) over Spec/HashSigs.v; the independent-verifier clause is a theorem for the rows of the current source (C07_rfc_verifier_accepts_released_signatures) and is additionally checked with the literal RFC tables by evaluating the RFC transcription's verifier in Coq on every released signature",
         ],
     },
     "C08": {
-        "families": [{"name": "e2e", "args": ["lite"]}, {"name": "hasher"}],
+        "families": [{"name": "e2e", "args": ["lite"]}, {"name": "hasher"}, {"name": "toy"}],
         "byte_exact": ["sign", "try_sign", "keygen", "hash"],
         "assumptions": [
             "Spec/HashSigs.v is a transcription of the reference's derivation and cannot be validated against the hash-sigs binary offline (trusted)",
@@ -84,7 +86,7 @@ PROPS = {
         ],
     },
     "C10": {
-        "families": [{"name": "c10"}],
+        "families": [{"name": "c10"}, {"name": "toyaux"}],
         "assumptions": [
             "transparency for a buffer with a VALID MAC needs 'MAC accepted => cached nodes are this tree's nodes' (MAC unforgeability, an explicit hypothesis of the theorem); it holds for buffers written by the library for the same seed and shape",
             "known finding: the MAC key depends on the seed only, so a library-written buffer of the same seed and another top-tree shape is accepted",
